@@ -103,7 +103,7 @@ def execute(sc, ctx):
                 if not ref.positive(ax):
                     continue
                 hi = ref.real([ref.hi(ax)] * 3)[0]
-                huge = ref.ext[ax] / ref.den > 1e300 if ref.den else False
+                huge = ref.ext[ax] / ref.den > 1e290 if ref.den else False
                 ctx.check(0 <= got[ax] <= hi, "outside-world", finding="F8" if huge and got[ax] != got[ax] else None, detail=
                           lambda: f"{where}: a{i} axis {ax} coordinate {got[ax]!r} outside 0..{hi!r} (extents "
                                   f"{ref.real(ref.ext)}, wrap={ref.wrap})")
